@@ -10,6 +10,7 @@ CONSTANTS
   ExtNames = {"a", "b", "c"}
   MaxFiles = {1, 2, 1000000, 1000001}
   FaultSet <- FaultsQuick
+  Restarts = {"keep", "file", "empty"}
   WhatIf = "none"
   NOps = 9
 SPECIFICATION SSpec
